@@ -45,15 +45,18 @@ try:
     meta["test_suite_ok"] = rcb == 0
     meta["confirmed"] = bool(rc0 == 0 and meta["patch_applies"] and rc1 != 0 and rcb == 0)
     checks = {}
+    VC = "/tmp/evalverif_%s" % name
+    sh("rm -rf %s && mkdir -p %s && cd %s && git ls-files -z | xargs -0 cp --parents -t %s && cp -r lean/.lake %s/lean/.lake"
+       % (VC, VC, V, VC, VC))
     for prop in [pid] + [a for a in sys.argv[3:]]:
         t0 = time.time()
-        rcc, outc = sh("cd %s && VERIF_REPO=%s ./check %s --tier quick" % (V, wt, prop))
+        rcc, outc = sh("cd %s && VERIF_REPO=%s ./check %s --tier quick" % (VC, wt, prop))
         lines = [l for l in outc.splitlines() if l.startswith(("VIOLATION", "KNOWN-FINDING", "[" + prop, "  broken"))]
         what = ""
         rp = [l.split("replay=")[1].split()[0] for l in lines if l.startswith("VIOLATION")]
         if rp:
             try:
-                what = json.load(open(os.path.join(V, rp[0]))).get("what", "")[:500]
+                what = json.load(open(os.path.join(VC, rp[0]))).get("what", "")[:500]
             except Exception:
                 pass
         checks[prop] = {"exit": rcc, "lines": lines[:8], "what": what, "wall_s": round(time.time() - t0, 1)}
@@ -63,7 +66,7 @@ try:
                                               for l in checks[pid]["lines"])
 finally:
     sh("git -C /repo worktree remove --force %s" % wt)
-    sh("cd %s && python3 tools/extract.py /repo" % V)
+    sh("rm -rf /tmp/evalverif_%s" % name)
 dst = os.path.join(V, "seeded", name)
 os.makedirs(dst, exist_ok=True)
 shutil.copy(patch, os.path.join(dst, "patch.diff"))
@@ -73,7 +76,7 @@ if os.path.exists(os.path.join(src, "notes.md")):
     meta["needs_to_manifest"] = "see notes.md"
 meta["what_i_ran"] = ("fresh worktree of /repo HEAD under /tmp; demo on original; git apply patch; demo with patch; "
                       "tools/baseline.py --fast --repo <worktree> (pinned suite vs BASELINE.json); "
-                      "VERIF_REPO=<worktree> ./check %s --tier quick; worktree removed" % pid)
+                      "VERIF_REPO=<worktree> ./check %s --tier quick (from a private copy of the committed /verif); worktree removed" % pid)
 json.dump(meta, open(os.path.join(dst, "meta.json"), "w"), indent=1)
 print(json.dumps({k: meta[k] for k in ("id", "confirmed", "detected", "detected_with_failing_input")}))
 print(json.dumps(meta.get("checks", {}), indent=1)[:1500])
